@@ -139,6 +139,8 @@ def run(ctx: Context, col) -> None:
         loop = ctx.solve_loop(cls)
         eff = ctx.effects(cls)
         L = loop.loop_carried()
+        # state read before the loop and written by solve: what a later call (or a resumed solver) starts from
+        SC = loop.solve_carried() - L
         so, sfn, spaths, _ = save_paths(ctx, cls)
         ro, rfn, rpaths, rother = restore_paths(ctx, cls)
         saved_reads = eff.of_function(so, sfn)[0]
@@ -154,7 +156,7 @@ def run(ctx: Context, col) -> None:
         if hidden:
             raise AnalysisError(f"{cls.name}: loop-carried state is kept inside collaborator object(s) {[f'self.{a}: {collab[a]}' for a in hidden]}; what "
                                 "solver_state saves of it goes through that object's own attributes, which this rule set does not follow")
-        for a in sorted(L):
+        for a in sorted(L | SC):
             ex = EXEMPT.get((cls.name, a))
             in_s, in_r = a in spaths, a in rpaths
             if ex is None and not (in_s and in_r) and a not in relevant:
